@@ -29,6 +29,7 @@ type vfC07History struct {
 	Counts  []int    // entries of the address per epoch (0 = address absent from that epoch)
 	Noise   []int    // entries of another address per epoch
 	SlotGap []int    // slot distance between consecutive entries (>= 0; 0 = same slot)
+	Place   []int    // per epoch: 0 entries start at slot +10; 1 first entry on the first slot of the epoch; 2 last entry on the last slot of the epoch
 }
 
 type vfC07Tx struct {
@@ -72,8 +73,27 @@ func vfC07build(h *vfC07History) (*vfC07World, error) {
 		if err != nil {
 			return nil, err
 		}
-		slot := ep*432000 + 10
 		n, nn := h.Counts[ei], h.Noise[ei]
+		gapOf := func(i int) uint64 {
+			if len(h.SlotGap) > 0 {
+				return uint64(h.SlotGap[(ei*7+i)%len(h.SlotGap)])
+			}
+			return 1
+		}
+		// slot of the first entry of the address
+		first := ep*432000 + 10 + gapOf(0)
+		if ei < len(h.Place) && n > 0 {
+			switch h.Place[ei] {
+			case 1:
+				first = ep * 432000
+			case 2:
+				first = ep*432000 + 431999
+				for i := 1; i < n; i++ {
+					first -= gapOf(i)
+				}
+			}
+		}
+		slot := first
 		off := uint64(100)
 		for i := 0; i < n || i < nn; i++ {
 			if i < nn {
@@ -84,11 +104,9 @@ func vfC07build(h *vfC07History) (*vfC07World, error) {
 			}
 			if i < n {
 				off += 97
-				gap := 1
-				if len(h.SlotGap) > 0 {
-					gap = h.SlotGap[(ei*7+i)%len(h.SlotGap)]
+				if i > 0 {
+					slot += gapOf(i)
 				}
-				slot += uint64(gap)
 				tx := vfC07Tx{Epoch: ep, Offset: off, Slot: slot, Sig: vfC07sig(ep, i)}
 				keys := solana.PublicKeySlice{addr}
 				if i%3 == 1 {
@@ -297,9 +315,10 @@ func vfC07evalHistory(h *vfC07History, run *vfh.Run, full bool) error {
 	// slot windows
 	slotSet := map[uint64]bool{}
 	for _, tx := range w.hist {
-		for _, d := range []uint64{0, 1} {
-			slotSet[tx.Slot+d] = true
-			slotSet[tx.Slot-d] = true
+		slotSet[tx.Slot] = true
+		slotSet[tx.Slot+1] = true
+		if tx.Slot > 0 { // slots are non-negative ints in the archive: no window bound below 0 / above 2^63
+			slotSet[tx.Slot-1] = true
 		}
 	}
 	for _, ep := range h.Epochs {
@@ -361,6 +380,8 @@ func TestVfC07Exhaustive(t *testing.T) {
 			for range eps {
 				h.Counts = append(h.Counts, x%(maxEntries+1))
 				h.Noise = append(h.Noise, (x+1)%3)
+				// entries in the middle of the epoch, from its first slot on, or up to its last slot
+				h.Place = append(h.Place, (code+len(h.Place))%3)
 				x /= maxEntries + 1
 			}
 			run.SetLast(h)
@@ -397,6 +418,7 @@ func TestVfC07Random(t *testing.T) {
 			ep += uint64(rapid.IntRange(1, 3).Draw(rt, "epochGap"))
 			h.Counts = append(h.Counts, rapid.SampledFrom([]int{0, 1, 3, 9, 30}).Draw(rt, "count"))
 			h.Noise = append(h.Noise, rapid.IntRange(0, 5).Draw(rt, "noise"))
+			h.Place = append(h.Place, rapid.IntRange(0, 2).Draw(rt, "place"))
 		}
 		h.SlotGap = rapid.SliceOfN(rapid.IntRange(0, 4), 1, 6).Draw(rt, "gaps")
 		run.SetLast(h)
